@@ -111,6 +111,11 @@ def bounded_checks(sess: Session):
     if bad:
         sess.violation_direct('wn._add._batch:partition', 'batches do not partition the input',
                               {'witness': bad[0]}, True, functions=('wn._add._batch',))
+    collect_frames_bounded(sess)
+
+
+def collect_frames_bounded(sess: Session):
+    from bounded import add_bounded as B
     cases, mutated, wrong = B.check_collect_frames()
     sess.add_bounded('wn._add._collect_frames', '<= 2 lexicon-level frames x 1 entry x <= 2 senses x all subcat '
                      'subsets x 4 entry-level frame variants', cases, 'small-scope enumeration', not (mutated or wrong))
